@@ -478,15 +478,32 @@ func (c *Ctx) assert(kind, label string, goal Term, src string, serves []string)
 		c.applyHints()
 	}
 	if len(goal.Conj) > 1 || len(goal.Imp) == 2 {
-		// one obligation per conjunct: smaller queries, sharper diagnosis
+		// one obligation per conjunct (smaller queries, sharper diagnosis); large conjunctions are first tried as a whole
 		flat := flattenConj(goal)
 		if len(flat) > 1 {
 			saved := c.inHint
 			c.inHint = true // hints were instantiated once for the whole clause
+			n0 := len(c.obls)
+			hyps0 := len(c.St.Path)
 			for i, g := range flat {
 				c.assert(kind, fmt.Sprintf("%s.%d", label, i+1), g, src, serves)
 			}
 			c.inHint = saved
+			parts := c.obls[n0:]
+			if len(parts) >= 6 {
+				// group: same hypotheses as the first part, goal = conjunction of the parts' goals
+				var goals []Term
+				for _, p := range parts {
+					goals = append(goals, p.Goal)
+				}
+				grp := *parts[0]
+				grp.Name = strings.Replace(parts[0].Name, "."+"1)", ".*)", 1)
+				grp.Base = strings.Replace(parts[0].Base, "."+"1)", ".*)", 1)
+				grp.Goal = And(goals...)
+				grp.Parts = append([]*Obligation{}, parts...)
+				_ = hyps0
+				c.obls = append(c.obls[:n0], &grp)
+			}
 			return
 		}
 	}
